@@ -4,6 +4,7 @@ import RedisVerif.Model.ShardsClock
 import RedisVerif.Model.Shards7
 import RedisVerif.Model.Script7
 import RedisVerif.Model.Dispatch
+import RedisVerif.Model.Server
 import RedisVerif.Driver.C01
 
 /-
@@ -22,6 +23,10 @@ import RedisVerif.Driver.C01
     M7 <now-ms> <OP args… in the C01 line syntax>   → reply in the C01 reply syntax (KEYS sorted)
     M7S <now-ms> <id> <nk> <key>* <na> <arg>* <nf> <field>*   → reply of script <id> of `Redis.scriptCatalog`
           (EVAL: ONE message to the shard of KEYS[1], the whole script runs there: `M7.execScript7`)
+    SRV <now-ms> <G|FG|FS|BG|BS> <n> <arg>*         → the END-TO-END node (`Model/Server.lean`) on one command frame
+          (bulk strings, command name first), via the entry point of the given frame class, on the
+          shards of the last M7NEW: hex of the reply bytes | outside | crash | unmapped
+          (replies whose order is unspecified — KEYS, HVALS — are sorted before encoding)
     M7EVICT <now-ms>                                → evict    (the TTL tick: every shard adopts the time)
     M7DUMP <now-ms>                                 → visible keyspace (C01 dump syntax) | keys=[what KEYS * lists]
 -/
@@ -242,6 +247,42 @@ def parseM7S : P (Nat × Nat × List Nat × List Bytes × List Nat) := do
   let fs ← repeatP nf strKey
   pure (now, id, ks, as, fs)
 
+def parseSrv : P (Nat × FrameClass × List Bytes) := do
+  expect "SRV"
+  let now ← nat
+  let c ← tok
+  let n ← nat
+  let args ← repeatP n bytesTok
+  let cls : Option FrameClass := match c with
+    | "G" => some .generic | "FG" => some .getFast | "FS" => some .setFast
+    | "BG" => some .getBatch | "BS" => some .setBatch | _ => none
+  match cls with
+  | some k => pure (now, k, args)
+  | none => failure
+
+/-- `Server.handle`, with KEYS / HVALS replies put in canonical order before they are encoded -/
+def srvStep (R : Routes) (cls : FrameClass) (st : Shards Redis.Entry) (now : Nat) (f : Server.Frame) :
+    Shards Redis.Entry × String :=
+  let r := Server.handle R (fun _ => cls) st now f
+  let shown : String := match r.2 with
+    | .bytes b => hexOfBytes b
+    | .crash => "crash"
+    | .outside => "outside"
+    | .unmapped => "unmapped"
+  match Grammar.parseCmdZc f with
+  | .ok gc =>
+    match Server.toCmd7 gc with
+    | some c =>
+      let x := Server.execVia R cls now st c
+      let canon : Option Redis.Reply := match x.2 with
+        | .keys l => some (.arr ((sortNat l).map Redis.Elem.key))
+        | y => (M7.toM7 y).map (C01.canonReply c)
+      match canon with
+      | some rr => (r.1, hexOfBytes (Server.encodeReply rr))
+      | none => (r.1, shown)
+    | none => (r.1, shown)
+  | .error _ => (r.1, shown)
+
 def parseM7 : P (Nat × Redis.Cmd) := do
   expect "M7"
   let now ← nat
@@ -280,6 +321,12 @@ def step (d : DState) (line : String) : DState × String :=
       let home : Redis.State := (dedupSorted (sortNat (d.st7.flatMap NMap.keys))).filterMap (fun k =>
         (NMap.get (shard d.st7 (d.R.bytes k)) k).map (fun e => (k, e)))
       (d, C01.showDump home t ++ " | keys=" ++ "[" ++ ",".intercalate (all.map showKey) ++ "]")
+    | none => (d, "bad-op")
+  | "SRV" :: _ =>
+    match runP parseSrv line with
+    | some (now, cls, f) =>
+      let r := srvStep d.R cls d.st7 now f
+      ({ d with st7 := r.1 }, r.2)
     | none => (d, "bad-op")
   | "M7S" :: _ =>
     match runP parseM7S line with
